@@ -21,6 +21,10 @@ def run_case(case, acc, order):
     spec = {'n_spikes': len(sc), 'n_templates': nt, 'n_channels': 3, 'spike_templates': ST[:len(sc)],
             'spike_clusters': list(sc), 'id_dtype': idt, 'raw': False, 'features': 'absent',
             'tfeatures': 'absent', 'fill': case.get('fill', 0)}
+    if case.get('no_cluster_file'):
+        # the dataset has no cluster file: the clusters start as (a copy of) the templates
+        spec['spike_clusters'] = 'absent'
+        sc = list(ST[:len(sc)])
     with core.Scratch() as d:
         tr = dsgen.make_dataset(d / 'ds', spec)
         m = load_model(tr['params_path'])
@@ -80,6 +84,20 @@ def run_case(case, acc, order):
                             acc.violation(sig, core.make_record(
                                 PROP, 'model', sig, case=case, op={'cluster': c, 'spike_clusters': sc2},
                                 expected=e, observed=got), order)
+                # the template assignments are not touched by a change of the cluster assignments
+                for t in range(nt):
+                    exp = [i for i in range(len(sc)) if st[i] == t]
+                    try:
+                        got = [int(x) for x in np.asarray(m.get_template_spikes(t)).tolist()]
+                    except Exception as ex:
+                        got = repr(ex)
+                    acc.step(True, 'model:template-spikes-after-in-memory-merge')
+                    if got != exp:
+                        sig = '%s/model/get_template_spikes,after-in-memory-update/%s' % (
+                            PROP, 'value' if isinstance(got, list) else 'exception')
+                        acc.violation(sig, core.make_record(
+                            PROP, 'model', sig, case=case, op={'template': t, 'spike_clusters': sc2},
+                            expected=exp, observed=got), order)
         finally:
             m.close()
     if order % 61 == 0:
@@ -99,6 +117,11 @@ def explore(ctx):
                 cases.append({'clusters': list(sc), 'id_dtype': ['int32', 'uint32', 'int64'][i % 3],
                               'fill': ctx.seed, 'templates': tk})
             i += 1
+    for n in (4, 5):
+        for tk in ('all-used', 'middle-unused', 'top-unused'):
+            for idt in ('int32', 'uint32', 'int64'):
+                cases.append({'clusters': [0] * n, 'id_dtype': idt, 'fill': ctx.seed, 'templates': tk,
+                              'no_cluster_file': True})
     ctx.run_cases(run_case, cases, sweep='model-queries')
 
 
